@@ -208,6 +208,40 @@ func runC06(prop string, res *Result, pool *DrvPool, r *Rng) {
 		}
 		os.RemoveAll(dir)
 	}
+	// two local GOPATHs that both hold a file of the dump, and a file only the second one holds: the
+	// same bytes with the same Opts value give the same result call after call, and the Opts value
+	// (shared between calls) stays what the caller made it
+	if dir, err := os.MkdirTemp("", "verif-c06-gopaths-"); err == nil {
+		gp1, gp2 := filepath.Join(dir, "gp1"), filepath.Join(dir, "gp2")
+		for _, f := range []string{gp1 + "/src/q/b.go", gp2 + "/src/q/b.go", gp2 + "/src/r/only2.go", gp1 + "/src/s/only1.go"} {
+			os.MkdirAll(filepath.Dir(f), 0o755)
+			os.WriteFile(f, []byte("package x\n"), 0o644)
+		}
+		txt := "goroutine 1 [running]:\nq.B(0x1)\n\t/home/u1/go/src/q/b.go:3 +0x1\nr.Only2()\n\t/home/u2/go/src/r/only2.go:1 +0x1\nmain.main()\n\t/home/u1/go/src/app/main.go:5 +0x2\n\n"
+		opts := &stack.Opts{LocalGOPATHs: []string{gp1, gp2}, GuessPaths: true}
+		optsBefore := fmt.Sprintf("%+v", *opts)
+		scan := func() string {
+			s, _, _ := stack.ScanSnapshot(strings.NewReader(txt), io.Discard, opts)
+			if s == nil {
+				return "nil"
+			}
+			return strings.ReplaceAll(fmt.Sprintf("%v %v %+v", s.RemoteGOPATHs, s.RemoteGOROOT, derefG(s.Goroutines)), dir, "$DIR")
+		}
+		ref := scan()
+		for k := 0; k < countN(res.Tier, 20, 200); k++ {
+			got := scan()
+			res.Count("gopaths-repeats")
+			if got != ref {
+				res.Violation(Finding{Stream: "repeat-gopaths", What: fmt.Sprintf("call %d with the same bytes, the same Opts value and the same files gave a different result than the first call: %s", k+2, diffAround(ref, got)), Op: map[string]interface{}{"input": hb(txt), "layout": "$DIR/gp1/src/q/b.go, $DIR/gp2/src/q/b.go, $DIR/gp2/src/r/only2.go, $DIR/gp1/src/s/only1.go; LocalGOPATHs=[gp1 gp2]"}})
+				break
+			}
+			if after := fmt.Sprintf("%+v", *opts); after != optsBefore {
+				res.Violation(Finding{Stream: "repeat-gopaths", What: "ScanSnapshot changed the Opts value it shares with later calls: " + strings.ReplaceAll(optsBefore, dir, "$DIR") + " became " + strings.ReplaceAll(after, dir, "$DIR"), Op: map[string]interface{}{"input": hb(txt)}})
+				break
+			}
+		}
+		os.RemoveAll(dir)
+	}
 	runHistory(res, r.Fork())
 	// across processes
 	self, _ := os.Executable()
